@@ -105,12 +105,32 @@ def eval_case(case: dict) -> dict:
         if second != first:
             viol('render-not-idempotent', first=first[:120], second=second[:120])
         if case.get('extend') is not None:
-            if case.get('extend_how') == 'iadd':
+            ehow = case.get('extend_how', 'append')
+            more = lines + T.ref_lines(case['extend'])
+            if ehow == 'iadd':
                 com += T.decode(case['extend'], text_gen.TextBlock)
+            elif ehow == 'lines-list':
+                # the lines buffer is handed out for extension: extend it directly
+                for line in T.ref_lines(case['extend']):
+                    com.lines.append(line)
+            elif ehow == 'lines-setter':
+                com.lines = list(more)
+            elif ehow == 'trim':
+                # extend, render, then trim the empty lines off both ends and render again
+                com.append(T.decode(case['extend'], text_gen.TextBlock))
+                str(com)
+                com.trim()
+                while more and more[0] == '':
+                    more.pop(0)
+                while more and more[-1] == '':
+                    more.pop()
+                if com.lines != more:
+                    viol('comment-lines-differ-from-reference:after-trim', expected=more[:10],
+                         got=com.lines[:10])
             else:
                 com.append(T.decode(case['extend'], text_gen.TextBlock))
-            more = lines + T.ref_lines(case['extend'])
             cnt['extended_after_render'] = 1
+            cnt[f'changed_after_render_via_{ehow}'] = 1
             for mech, detail in judge_rendering(str(com), more):
                 viol(mech + ':after-extend', **detail)
     except Exception as exc:  # pylint: disable=broad-except
@@ -207,7 +227,7 @@ def _worker(arg):
         case = {'content': rand_comment_content(rng),
                 'how': rng.choice(['ctor', 'ctor', 'append', 'iadd']),
                 'extend': rand_comment_content(rng) if rng.random() < 0.3 else None,
-                'extend_how': rng.choice(['append', 'iadd'])}
+                'extend_how': rng.choice(['append', 'iadd', 'lines-list', 'lines-setter', 'trim'])}
         res = eval_case(case)
         for key, val in res['counts'].items():
             agg['counts'][key] = agg['counts'].get(key, 0) + val
@@ -223,7 +243,9 @@ def main(tier: str) -> int:
     per = 250 if tier == 'quick' else 2500
     n_pairs = 10 if tier == 'quick' else 200
     run.require('comments_rendered', 'comment_lines_judged', 'filled_via_iadd', 'filled_via_append', 'with_unusual_separators',
-                'extended_after_render', 'build_pairs', 'files_compared',
+                'extended_after_render', 'changed_after_render_via_lines-list',
+                'changed_after_render_via_lines-setter', 'changed_after_render_via_trim',
+                'build_pairs', 'files_compared',
                 'lexer_residues_compared')
     for _item, res in run.pmap(_worker, [(run.seed, i, per) for i in range(total // per)]):
         if 'harness_error' in res:
